@@ -136,8 +136,12 @@ func lifeKey(i int) []byte {
 }
 
 func lifeOpen(d string, il, pl uint32, ptype string) (*store.Store, error) {
+	return lifeOpenBits(d, 8, il, pl, ptype)
+}
+
+func lifeOpenBits(d string, bits uint8, il, pl uint32, ptype string) (*store.Store, error) {
 	return store.OpenStore(context.Background(), ptype, filepath.Join(d, "data"), filepath.Join(d, "index"), false,
-		store.IndexBitSize(8), store.IndexFileSize(il), store.PrimaryFileSize(pl),
+		store.IndexBitSize(bits), store.IndexFileSize(il), store.PrimaryFileSize(pl),
 		store.GCInterval(time.Millisecond), store.GCTimeLimit(50*time.Millisecond), store.SyncInterval(time.Millisecond), store.FileCacheSize(4))
 }
 
@@ -385,6 +389,20 @@ func lifeOne(dir string, tr *core.Tracer, sc *lifeScen) (bool, error) {
 			st2, oerr = lifeOpen(d, 64, 128, store.MultihashPrimary)
 		case "ptype":
 			st2, oerr = lifeOpen(d, 64, 64, "no-such-primary")
+		case "bitsandsize":
+			// another bit size AND another index file-size limit: the translation that the bit size asks for fails
+			st2, oerr = lifeOpenBits(d, 12, 128, 64, store.MultihashPrimary)
+		case "bitsandtrunc":
+			// another bit size over a primary that lost its tail: the translation cannot read the keys it needs
+			if fis, _ := filepath.Glob(filepath.Join(d, "data.*")); len(fis) > 0 {
+				for _, f := range fis {
+					if fi, err := os.Stat(f); err == nil && !strings.HasSuffix(f, ".info") && fi.Size() > 8 {
+						os.Truncate(f, fi.Size()/2)
+					}
+				}
+			}
+			before = dirPrint(d)
+			st2, oerr = lifeOpenBits(d, 12, 64, 64, store.MultihashPrimary)
 		case "idxheader":
 			os.WriteFile(filepath.Join(d, "index.info"), []byte("{not json"), 0o644)
 			before = dirPrint(d)
